@@ -106,10 +106,28 @@ STDLIB_ALLOW: dict[tuple[str, str], str] = {
     ("abc.py", "_abc_impl"): "ABCMeta.__subclasscheck__",
     ("abc.py", "__subclasshook__"): "ABCMeta.__subclasscheck__",
     ("abc.py", "__subclasses__"): "ABCMeta.__subclasscheck__",
+    # collections.UserDict / UserList / UserString implement the item protocol in Python on top
+    # of their `data` attribute; the read is the wrapper's own implementation of obj[key] / len /
+    # iter / str, made by the standard library, not by the engine
+    ("collections/__init__.py", "data"): "collections.User* protocol methods read self.data",
+    ("collections/__init__.py", "__missing__"): "UserDict.__getitem__ probes self.__class__.__missing__",
+    ("collections/__init__.py", "_UserList__cast"): "UserList comparison helpers",
+    # enum members hash / compare / stringify through Python-level methods of enum.Enum
+    ("enum.py", "_name_"): "enum.Enum.__hash__ / __repr__ (hash() of a member)",
+    ("enum.py", "_value_"): "enum.Enum value descriptor",
+    ("enum.py", "_sort_order_"): "enum ordering",
 }
 
 
 STR_API = frozenset(n for n in dir(str) if n not in dir(object) or n in ("__format__",))
+
+
+def _bn(fn: str) -> str:
+    """basename, with the package directory kept for __init__.py"""
+    b = os.path.basename(fn)
+    if b == "__init__.py":
+        return os.path.basename(os.path.dirname(fn)) + "/__init__.py"
+    return b
 
 
 class Monitor:
@@ -172,7 +190,9 @@ class Monitor:
     def log(self, level: str, info: "SpyInfo", name: str, frame) -> None:  # noqa: ANN001
         code = frame.f_code
         fn = code.co_filename
-        if fn in HARNESS_FILES:
+        if fn in HARNESS_FILES or fn == "<string>":
+            # "<string>": methods that dataclasses / namedtuple generate for the object's own class
+            # (__eq__, __hash__, __repr__ reading the fields) -- the object's business, like ours
             return
         self.events += 1
         self.touched.add(info.shape)
@@ -185,7 +205,7 @@ class Monitor:
         why = self.judge(level, info, name, fn, caller_liq)
         if why is None:
             self.ok_cache.add(k)
-            src = "liquid2" if caller_liq else os.path.basename(fn)
+            src = "liquid2" if caller_liq else _bn(fn)
             self.allowed_seen.add(f"{level}:{name}<{src}")
             return
         if name in self.names or name.startswith("zq_"):
@@ -220,7 +240,7 @@ class Monitor:
                 if when.startswith("role:") and info.role == when[5:]:
                     return None
                 return f"'{name}' is protocol only when {when}; object is {info.shape}"
-            if caller_liq is None and (os.path.basename(fn), name) in STDLIB_ALLOW:
+            if caller_liq is None and (_bn(fn), name) in STDLIB_ALLOW:
                 return None
             if info.is_str and name in STR_API:
                 # the object IS a Liquid string (docs/variables_and_drops.md type table): string
@@ -232,7 +252,7 @@ class Monitor:
             if name in CLASS_ALLOW_LIQUID2:
                 return None
             return f"engine code read class attribute '{name}'"
-        if (os.path.basename(fn), name) in STDLIB_ALLOW:
+        if (_bn(fn), name) in STDLIB_ALLOW:
             return None
         return f"class attribute '{name}' read by {os.path.basename(fn)} on behalf of the engine"
 
@@ -326,6 +346,7 @@ def _hidden_ns(shape: str) -> dict[str, Any]:
 
 
 CLASSES: dict[str, type] = {}
+FACTORIES: dict[str, Any] = {}
 
 
 def _make(shape: str, bases: tuple[type, ...], ns: dict[str, Any], *, role: str = "") -> type:
@@ -600,10 +621,177 @@ def _ss_new(cls, idx: int = 0, **kw: Any):  # noqa: ANN001, ARG001
 
 StrSub = _make("strsub", (str,), {"__new__": _ss_new, "__str__": lambda self: str.__str__(self)})
 
+# ---------------------------------------------------------------------------------------
+# the remaining common Python value kinds, as spies where a subclass is possible.
+# Named tuples: docs/variables_and_drops.md "Paths to variables" -- the engine resolves
+# segments with __getitem__; a tuple's items are its integer indexes, so FIELD NAMES are not
+# items (nt['label'] is a TypeError in Python) and are hidden names like any other attribute.
+# ---------------------------------------------------------------------------------------
+import collections as _collections  # noqa: E402
+import dataclasses as _dataclasses  # noqa: E402
+import enum as _enum  # noqa: E402
+import types as _types  # noqa: E402
+import typing as _typing  # noqa: E402
+
+_NtBase = _collections.namedtuple("_NtBase", ["label", "qty", "inner"])
+
+
+class _TypedNtBase(_typing.NamedTuple):
+    label: str
+    qty: int
+    inner: Any
+
+
+def _nt_ns(base: type, shape: str) -> dict[str, Any]:
+    def __new__(cls, idx: int = 0, **kw: Any):  # noqa: ANN001, ARG001, N807
+        return base.__new__(cls, f"PUB_NT_LABEL_{idx}", 5 + idx, MapDrop(idx))
+
+    return {
+        "__new__": __new__,
+        "API_TOKEN": _canary("classattr", "API_TOKEN", shape),
+        "balance": property(lambda self: _canary("property", "balance", shape)),
+        "describe": lambda self: _canary("methodresult", "describe", shape),
+    }
+
+
+NTuple = _make("ntuple", (_NtBase,), _nt_ns(_NtBase, "ntuple"))
+TypedNTuple = _make("typednt", (_TypedNtBase,), _nt_ns(_TypedNtBase, "typednt"))
+NTupleSub = _make("ntuplesub", (NTuple,), {"EXTRA": _canary("classattr", "EXTRA", "ntuplesub")})
+
+
+def _ts_new(cls, idx: int = 0, **kw: Any):  # noqa: ANN001, ARG001
+    return tuple.__new__(cls, (f"PUB_TS_{idx}A", f"PUB_TS_{idx}B", MapDrop(idx)))
+
+
+TupleSub = _make("tuplesub", (tuple,), {"__new__": _ts_new})
+
+
+def _dc_init(self, idx: int = 0, **kw: Any) -> None:  # noqa: ARG001
+    sh = INFO[type(self)].shape
+    for k_, v in (("idx", idx), ("label", f"CNRY_attr_label_{sh}"), ("qty", 3),
+                  ("secret", _canary("attr", "secret", sh)), ("password", _canary("attr", "password", sh))):
+        object.__setattr__(self, k_, v)
+
+
+def _dc(shape: str, **dc_kw: Any) -> type:
+    ns = {"__annotations__": {"idx": int, "label": str, "qty": int, "secret": str, "password": str},
+          "__init__": _dc_init}
+    cls = _make(shape, (), ns)
+    info = INFO.pop(cls)
+    cls2 = _dataclasses.dataclass(init=False, **dc_kw)(cls)
+    INFO[cls2] = info
+    CLASSES[shape] = cls2
+    return cls2
+
+
+DcPlain = _dc("dc_plain")
+DcFrozen = _dc("dc_frozen", frozen=True)
+DcSlots = _dc("dc_slots", slots=True)
+
+
+class SpyEnumMeta(_enum.EnumMeta):
+    def __getattribute__(cls, name):  # noqa: ANN001, N805
+        info = INFO.get(cls)
+        if info is not None:
+            MON.log("C", info, name, _get(1))
+        return type.__getattribute__(cls, name)
+
+
+def _mk_enum() -> type:
+    name = "CNRY_classname_cls_enum"
+    ns = SpyEnumMeta.__prepare__(name, (_enum.Enum,))
+    ns["LOW"] = _canary("enumvalue", "low", "enum")
+    ns["HIGH"] = _canary("enumvalue", "high", "enum")
+
+    def __getattribute__(self, name):  # noqa: ANN001, N807
+        info = INFO.get(type(self))
+        if info is not None:   # None while EnumMeta is still building the members
+            MON.log("I", info, name, _get(1))
+        return object.__getattribute__(self, name)
+
+    ns["__getattribute__"] = __getattribute__
+    ns["__str__"] = lambda self: "PUBSTR_ENUM_MEMBER"
+    ns["describe"] = lambda self: _canary("methodresult", "describe", "enum")
+    ns["prop"] = property(lambda self: _canary("property", "prop", "enum"))
+    ns["__module__"] = "CNRY_modulename_mod_enum"
+    cls = SpyEnumMeta(name, (_enum.Enum,), ns)
+    INFO[cls] = SpyInfo("enum", False, False)
+    CLASSES["enum"] = cls
+    members = [cls.LOW, cls.HIGH]
+    FACTORIES["enum"] = lambda idx=0, **kw: members[idx % 2]
+    return cls
+
+
+EnumShape = _mk_enum()
+
+SimpleNS = _make("simplens", (_types.SimpleNamespace,), {})
+
+
+def _ud_setup(self, idx: Any, **kw: Any) -> None:  # noqa: ARG001
+    self.data = _exposed_for(idx if isinstance(idx, int) else 0)
+
+
+UserDictShape = _make("userdict", (_collections.UserDict,), {"_setup": _ud_setup})
+
+
+def _ul_init(self, idx: Any = 0, **kw: Any) -> None:  # noqa: ARG001
+    # UserList.__getitem__(slice) / copy call self.__class__(list)
+    self.secret = _canary("attr", "secret", "userlist")
+    self._private = _canary("attr", "private", "userlist")
+    self.password = _canary("attr", "password", "userlist")
+    if isinstance(idx, int):
+        self.idx = idx
+        self.data = [MapDrop(idx * 3 + j) for j in range(3)]
+    else:
+        self.idx = 0
+        self.data = list(idx)
+
+
+UserListShape = _make("userlist", (_collections.UserList,), {"__init__": _ul_init})
+
+
+def _us_init(self, idx: Any = 0, **kw: Any) -> None:  # noqa: ARG001
+    self.secret = _canary("attr", "secret", "userstring")
+    self._private = _canary("attr", "private", "userstring")
+    self.password = _canary("attr", "password", "userstring")
+    self.idx = idx if isinstance(idx, int) else 0
+    self.data = f"PUB_USERSTR_{idx}" if isinstance(idx, int) else str(idx)
+
+
+UserStringShape = _make("userstring", (_collections.UserString,), {
+    "__init__": _us_init, "__str__": lambda self: str(_o(self, "data")),
+})
+
+
+def _dp_setup(self, idx: int, **kw: Any) -> None:  # noqa: ARG001
+    # a careless dict subclass: only __getitem__/__contains__ are restricted.  Its other entries
+    # stay reachable through iteration / items() / str() -- the DOCUMENTED protocol -- so they are
+    # not canaries (marker PUBVIA_ITER); the attribute log and dict.get-style bypasses still apply
+    self._allowed = ("title", "n")
+    dict.__setitem__(self, "title", f"PUB_TITLE_{idx}")
+    dict.__setitem__(self, "n", 7 + idx)
+    for nm in ("other", "internal_note"):
+        dict.__setitem__(self, nm, f"PUBVIA_ITER_{nm}")
+
+
+def _dp_getitem(self, key):  # noqa: ANN001
+    if key in _o(self, "_allowed"):
+        return dict.__getitem__(self, key)
+    raise KeyError(key)
+
+
+DictPartial = _make("dictpartial", (dict,), {
+    "_setup": _dp_setup, "__getitem__": _dp_getitem,
+    "__contains__": lambda self, k: k in _o(self, "_allowed"),
+    "__str__": dict.__repr__,   # i.e. what str() gives when the host did not define __str__
+})
+
 SPY_SHAPES = [
     "plain", "callprop", "mapping", "sequence", "raiser_key", "raiser_type", "raiser_index",
     "raiser_attr", "raiser_value", "liquid", "html", "asyncdrop", "magic", "iterable",
     "forcedefault", "dictdrop", "dictget", "listdrop", "strsub",
+    "ntuple", "typednt", "ntuplesub", "tuplesub", "dc_plain", "dc_frozen", "dc_slots", "enum",
+    "simplens", "userdict", "userlist", "userstring", "dictpartial",
 ]
 
 # what each spy shape legitimately shows for a *string key* (relation check is skipped for
@@ -616,9 +804,17 @@ VISIBLE["iterable"] = frozenset(EXPOSED_KEYS)
 VISIBLE["dictdrop"] = frozenset(EXPOSED_KEYS)
 VISIBLE["dictget"] = frozenset(EXPOSED_KEYS)
 VISIBLE["listdrop"] = frozenset(EXPOSED_KEYS)   # its items are mapping drops
+VISIBLE["userdict"] = frozenset(EXPOSED_KEYS)
+VISIBLE["userlist"] = frozenset(EXPOSED_KEYS)
+for _s in ("ntuple", "typednt", "ntuplesub", "tuplesub"):
+    VISIBLE[_s] = frozenset(EXPOSED_KEYS)          # one of the tuple's ITEMS is a mapping drop
+VISIBLE["dictpartial"] = frozenset(("title", "n", "other", "internal_note"))
 
 
 def make(shape: str, idx: int = 0, **kw: Any) -> Any:
+    f = FACTORIES.get(shape)
+    if f is not None:
+        return f(idx, **kw)
     return CLASSES[shape](idx, **kw)
 
 
